@@ -389,10 +389,13 @@ def iso(A, Atr, B, Btr, skip_content_of_B=(), skip_content_of_A=(), strings_opaq
         if isinstance(va, dict):
             ka = {k for k, v in va.items() if not is_null(A, v)}
             kb = {k for k, v in vb.items() if not is_null(B, v)}
-            if kb - ka == {b"Extensions"} and vb.get(b"Type") == Name(b"Catalog"):
-                kb = kb - {b"Extensions"}       # /Extensions /ADBE is written by qpdf for 256-bit encryption (writer-owned)
-            if path.endswith("/Extensions") and kb - ka == {b"ADBE"}:
-                kb = kb - {b"ADBE"}
+            if (kb ^ ka) == {b"Extensions"} and (vb.get(b"Type") == Name(b"Catalog") or va.get(b"Type") == Name(b"Catalog")):
+                only = resolve(B if b"Extensions" in kb else A, (vb if b"Extensions" in kb else va)[b"Extensions"])
+                if isinstance(only, dict) and set(only) <= {b"ADBE"}:
+                    ka, kb = ka - {b"Extensions"}, kb - {b"Extensions"}       # /Extensions /ADBE is written by qpdf for 256-bit encryption (writer-owned)
+            if path.endswith("/Extensions"):
+                # the /ADBE extension level is writer-owned: added for 256-bit encryption, dropped when a version is forced
+                ka, kb = ka - {b"ADBE"}, kb - {b"ADBE"}
             if ka != kb:
                 raise Mismatch("%s: dictionary keys differ: only in input %r, only in output %r" % (path, sorted(ka - kb), sorted(kb - ka)))
             for k in sorted(ka):
